@@ -70,7 +70,7 @@ impl<'a> PrettyPrinter<'a> {
             peek_hash = false;
             if let Some(expr) = node.cast::<Expr>() {
                 let ctx = ctx.with_mode_if(Mode::Code, at_hash);
-                let expr_doc = self.convert_expr(ctx, expr);
+                let expr_doc = self.convert_embedded_expr(ctx, expr);
                 doc += expr_doc;
             } else if let Some(space) = node.cast::<Space>() {
                 doc += self.convert_space(space);
